@@ -222,6 +222,13 @@ S(P(COPY(O("a", "o", "opt", "int", 4)), COPY(MANY(P(US("b", None, "k"), A("c", "
 S(COPY(CMD(COPY(SW("a", None, "v")), [("go", "x", COPY(OPT(SUM("s", A("b", "int"), F("c", None, "m", "enm", 1, 0)))))])),
   "copies of commands, switch, optional, sum, flag<enum>")
 
+# ---- names of unusual shape: short names longer than long names, empty names, dashes inside names
+S(P(O("a", "out", "o", "int"), P(SW("b", "vv", "v"), A("c", "str"))), "short names with several characters, long names with one")
+S(P(SW("a", None, ""), A("b", "str")), "switch whose long name is empty (the flag is `--`)")
+S(P(O("a", "", "o", "int", 9), A("b", "str")), "option whose short name is empty (the option is `-`)")
+S(P(SW("a", "-x", "no-color"), P(O("b", None, "-v", "str", "d"), A("c", "str"))), "names that contain and start with dashes")
+S(MANY(US("a", "kk", "k")), "unit_switch with a two-character short name, repeated")
+
 SHAPES = _S
 
 LABELS = ["a", "b", "c", "d", "e", "g", "s", "t", "x", "y", "z"]
